@@ -6,7 +6,13 @@
  * case:  ctr  DYN SG  | NF {ctl idx hasin nd {cond local gather}*}* | NTHREADS   | sched...
  *        mask HII GOAL| NF ...                                       | idx idx .. | sched...
  * out :  ready: r0 r1 .. | deps=D | steps: s0 s1 .. | goal=G (ctr) / in=M (mask)       */
+#if defined(VERIF_RACE)
+/* race-exploration build: compiled by clang -fsanitize=thread and linked with tsanrt.c, every access
+ * (plain or atomic) to the registered shared bytes yields; no macro interposition */
+extern void race_share(const void *p, unsigned long len); extern void race_reset(void);
+#else
 #include "interpose.h"
+#endif
 #include "cosched.h"
 #include "parsec/parsec.c"
 #include "hcommon.h"
@@ -72,6 +78,9 @@ int main(int argc, char **argv) {
         }
         if (nt > COS_MAX) { printf("<bad case>\n"); continue; }
         int ns = hc_ints(&p, sched, 8192);
+#if defined(VERIF_RACE)
+        race_reset(); race_share(&word, sizeof(word));
+#endif
         cos_reset();
         for (int t = 0; t < nt; t++) { result[t] = -1; cos_spawn(release, (void *)(intptr_t)t); }
         int dl = cos_run(sched, ns, 1000);
